@@ -331,16 +331,18 @@ def _present_sets(n, tier):
 
 def models_configs(tier):
     out = []
-    sizes = (2, 3) if tier == 'quick' else (2, 3, 4)
+    sizes = (2, 3, 4)
     for n in sizes:
         for pres in _present_sets(n, tier):
-            for phase in (('l',) if tier == 'quick' else ('l', 'g', 's')):
+            for phase in (('l', 'g') if tier == 'quick' else ('l', 'g', 's')):
                 out.append({'name': f'N={n};present={"".join(map(str, pres))};phase={phase}', 'N': n,
                             'present': list(pres), 'phase': phase, 'maybe': []})
     # entries that may be zero (decided by the explorer when the vector is built, as a caller would)
     out.append({'name': 'N=2;present=0;maybe=1;phase=l', 'N': 2, 'present': [0], 'phase': 'l', 'maybe': [1]})
+    out.append({'name': 'N=3;present=1;maybe=02;phase=g', 'N': 3, 'present': [1], 'phase': 'g', 'maybe': [0, 2]})
     if tier == 'thorough':
-        out.append({'name': 'N=3;present=1;maybe=02;phase=g', 'N': 3, 'present': [1], 'phase': 'g', 'maybe': [0, 2]})
+        out.append({'name': 'N=4;present=;maybe=0123;phase=l', 'N': 4, 'present': [], 'phase': 'l', 'maybe': [0, 1, 2, 3]})
+        out.append({'name': 'N=3;present=;maybe=012;phase=s', 'N': 3, 'present': [], 'phase': 's', 'maybe': [0, 1, 2]})
     return out
 
 
@@ -454,7 +456,7 @@ def mixture_models(w, cfg):
 
 def mixture_configs(tier):
     out = []
-    for n in ((2,) if tier == 'quick' else (2, 3, 4)):
+    for n in ((2, 3) if tier == 'quick' else (2, 3, 4)):
         for ex in (False, True):
             out.append({'name': f'N={n};excess={ex}', 'N': n, 'excess': ex, 'present': list(range(n))})
     out.append({'name': 'N=3;excess=True;present=02', 'N': 3, 'excess': True, 'present': [0, 2]})
